@@ -128,3 +128,57 @@ class MatchMessageSet(Harness):
 
 class MatchUid(MatchMessageSet):
     op, attr = "uid", "_match_uid"
+
+
+def bare_mailbox(uids, msg_keys=None):
+    """A Mailbox object with only the list state filled in (no server, no folder)."""
+    from collections import defaultdict
+
+    from asimap.mbox import Mailbox
+
+    m = Mailbox.__new__(Mailbox)
+    m.name = "verif"
+    m.uids = list(uids)
+    m.msg_keys = list(msg_keys) if msg_keys is not None else list(range(1, len(uids) + 1))
+    m.num_msgs = len(m.uids)
+    m.sequences = defaultdict(set)
+    m._rebuild_index_dicts()
+    return m
+
+
+class MsgSetToSeqSet(Harness):
+    scope = "mailboxes of N<=3 messages with UIDs any ascending subset of 1..5; sets of <=2 elements over 0..6 and '*'; UID and non-UID forms"
+    exhaustive = True
+
+    def inputs(self, tier, seed):
+        maxlen = 2 if tier == "quick" else 3
+        for n in range(0, 4):
+            for uids in itertools.combinations(range(1, 6), n):
+                for uid in (False, True):
+                    top = (uids[-1] if uids else 1) if uid else n
+                    els = elements(min(top, 4 if tier == "quick" else 5))
+                    for k in range(0, maxlen + 1):
+                        for S in itertools.product(els, repeat=k):
+                            yield {"uids": list(uids), "msg_set": tolist(S), "from_uids": uid}
+
+    def check(self, inp):
+        from asimap.exceptions import Bad
+
+        m = bare_mailbox(inp["uids"])
+        S, uid = fromlist(inp["msg_set"]), inp["from_uids"]
+        uids = inp["uids"]
+        mx = (uids[-1] if uids else 1) if uid else len(uids)
+        want_bad = any(elt_bad(e, mx, uid) for e in S)
+        try:
+            got = m.msg_set_to_msg_seq_set(S, uid)
+        except Bad:
+            return None if want_bad else {"observed": "raised Bad", "clause": "raises Bad only for a number outside 1..N (non-UID) / below 1"}
+        except Exception as e:
+            return {"observed": f"raised {type(e).__name__}: {e}", "clause": "raises nothing but Bad"}
+        if want_bad:
+            return {"observed": sorted(got), "clause": "raises Bad for a non-UID number outside 1..N"}
+        d = denote(S, mx)
+        want = {i + 1 for i, u in enumerate(uids) if u in d} if uid else d
+        if got != want:
+            return {"observed": sorted(got), "clause": f"result == {sorted(want)} (positions of the denoted messages)"}
+        return None
